@@ -175,11 +175,11 @@ theorem eval_error_stops (env : Env) (n : Nat) (w w1 : World) (p q : Query) (r :
     (extra : Extra) (input : Option Val) (uc : Bool) (e : EState)
     (hmiss : (extra.isEmpty && input.isNone && uc) = false ∨ w.get (q.encode Gen.escapeTable) = none)
     (hp : q.predecessor = some (p, r)) (hpe : p.segments.isEmpty = false)
-    (h : evalQ env n (w.storeMeta raw (s "evaluating parent")) p (p.encode Gen.escapeTable) .none input uc = (w1, .st e))
+    (h : evalQ env n (w.metaIf uc raw (s "evaluating parent")) p (p.encode Gen.escapeTable) .none input uc = (w1, .st e))
     (he : e.isError = true) :
     evalQ env (n+1) w q raw extra input uc =
-      (w1.storeMeta raw (s "error"), .st { e with data := .none, query := q.encode Gen.escapeTable }) ∧
-    (w1.storeMeta raw (s "error")).calls = w1.calls := by
+      (w1.metaIf uc raw (s "error"), .st { e with data := .none, query := q.encode Gen.escapeTable }) ∧
+    (w1.metaIf uc raw (s "error")).calls = w1.calls := by
   refine ⟨?_, by simp⟩
   rw [evalQ_succ]
   have hm : (if (extra.isEmpty && input.isNone && uc) = true then w.get (q.encode Gen.escapeTable) else none) = none := by
